@@ -48,6 +48,7 @@ class FnSpec:
         self.loops = {}           # k -> {invariant|begin|end|after: text}
         self.body = {}            # begin|end -> text
         self.iters = set()
+        self.stmts = {}           # k -> {before|after: text}
         self.r3 = []
         self.r4 = []
         self.replaces = []        # (rule, old, new)
@@ -107,6 +108,9 @@ def parse_vspec(path, rel):
                 cur.loops[section[1]][section[2]] += text
             elif kind == 'body':
                 cur.body[section[1]] = cur.body.get(section[1], '') + text
+            elif kind == 'stmt':
+                cur.stmts.setdefault(section[1], {}).setdefault(section[2], '')
+                cur.stmts[section[1]][section[2]] += text
         buf = []
         section = None
 
@@ -165,6 +169,12 @@ def parse_vspec(path, rel):
                 if len(a) != 2 or a[1] not in ('invariant', 'begin', 'end', 'after', 'before'):
                     raise ExtractError('%s:%d: @loop K invariant|begin|end|after' % (rel, ln))
                 section = ('loop', int(a[0]), a[1])
+            elif d == '@stmt':
+                flush()
+                a = arg.split()
+                if len(a) != 2 or a[1] not in ('before', 'after'):
+                    raise ExtractError('%s:%d: @stmt K before|after' % (rel, ln))
+                section = ('stmt', int(a[0]), a[1])
             elif d == '@body':
                 flush()
                 if arg.strip() not in ('begin', 'end'):
@@ -695,6 +705,16 @@ class Generator:
                 add(lp.close, 0, 'splice:loop%d-end' % k, '\n' + d['end'])
             if d.get('after'):
                 add(lp.close + 1, 2, 'splice:loop%d-after' % k, '\n' + d['after'])
+        if sp.stmts:
+            stmts = rsparse.split_statements(s, m, fn.body_open + 1, fn.body_close)
+            for k, d in sp.stmts.items():
+                if k < 1 or k > len(stmts):
+                    raise ExtractError('lost anchor: %s refers to statement %d, function %s has %d top-level statements'
+                                       % (sp.origin, k, fn.name, len(stmts)))
+                if d.get('before'):
+                    add(stmts[k - 1][0], 0, 'splice:stmt%d-before' % k, d['before'])
+                if d.get('after'):
+                    add(stmts[k - 1][1], 3, 'splice:stmt%d-after' % k, '\n' + d['after'])
         if sp.body.get('begin'):
             add(fn.body_open + 1, 0, 'splice:body-begin', '\n' + sp.body['begin'])
         if sp.body.get('end'):
